@@ -321,7 +321,12 @@ def session(rng, np, twod, kind):
                 ops.append('dadj %d %d' % (rr, rng.randrange(len(dviews[rr][0]))))
             if rviews[rr][0]:
                 ops.append('radj %d %d' % (rr, rng.randrange(len(rviews[rr][0]))))
-    ops.append('locate')
+    counts = []
+    for rr in range(np):
+        counts += [len(dviews[rr][0]), len(dviews[rr][1]), len(dviews[rr][2]),
+                   len(rviews[rr][0]), len(rviews[rr][1]), len(rviews[rr][2])]
+    # `locate` names the line counts of the session: a session that lost a line is answered `bad-op`, not run
+    ops.append('locate ' + ' '.join(str(c) for c in counts))
     return ops
 
 
@@ -332,7 +337,7 @@ def malformed(np):
             'dnode 0 2 0 ' + H([0.0, 1.0, 0.0]), 'dnode %d 0 0 ' % np + z, 'dnode 0 3 %d ' % np + z, 'dnode 0 3 0 zz',
             'dcell 0 0 1 1', 'dcell 0 0 1 1 1', 'dcell 0 0 1 5 1', 'dcell 0 0 1 2 1', 'dbnd 0 0 1 1', 'dbnd 0 0 0 1',
             'dadj 0 0', 'dadj 0 7', 'radj 0 0', 'geomlist 0', 'geomlist %d' % np, 'frobnicate', 'rcell 0 0 1 2 1',
-            'locate 1'] + (['locate'] if np == 1 else [])
+            'locate 1', 'locate ' + ' '.join(['0'] * (6 * np)), 'locate ' + ' '.join(['3', '1', '1', '0', '0', '0'] + ['0'] * (6 * np - 6))]
 
 
 def gen_locate(rng, tier, np=None):
